@@ -591,7 +591,11 @@ def explore(run, seeds, D, B, letters="RCIM", trans_check=None, state_check=None
             new = {}
             nparts = max(1, (NPROC * 6) // max(1, len(frontier)))  # small frontiers: split the op menu of each state over workers
             tasks = [(sd, h, u, i, nparts) for sd, h, u in frontier for i in range(nparts)]
+            capped = False
             for sd, hist, used, out in mapper(_expand, tasks):
+                if max_states and stats["states"] > max_states:   # stop INSIDE the level: the frontier of a deep level can be far larger than the cap
+                    capped = True
+                    break
                 for op, cost, kh, rejected, exn, viol, same in out:
                     stats["transitions"] += 1
                     if rejected:
@@ -611,6 +615,13 @@ def explore(run, seeds, D, B, letters="RCIM", trans_check=None, state_check=None
                         if k not in new or new[k][2] > c:
                             new[k] = (sd, hist + [op], c)
             nxt = list(new.values())
+            if capped:
+                run.caps.append("state cap %d reached INSIDE depth %d (levels <= %d fully covered, level %d partially)" % (max_states, d + 1, d, d + 1))
+                per_depth.append(dict(depth=d + 1, states=stats["states"], transitions=stats["transitions"], frontier=len(nxt), partial=True))
+                if pool:
+                    pool.terminate()
+                    pool = None
+                break
             if state_check is not None and nxt:
                 bad = set()
                 for sd, hist, viol in mapper(_check_state, [(sd, h) for sd, h, _ in nxt]):
